@@ -46,7 +46,7 @@ def random_partition(rng, data):
 
 
 def gen(tier, rng):
-    L = 6 if tier == "quick" else 9
+    L = 6 if tier == "quick" else 8
     cases = []
     for s in all_strings([0, 1, 2], L):
         for parts in all_partitions(s):
